@@ -74,6 +74,34 @@ def rule_b(model, rep):
               "dummy_verify() spends one verification of the built-in secret against the cached dummy hash and answers False",
               witness="dummy_verify() returns the verification's result (True for the built-in dummy secret)")
     rep.check(not [p for p in params(fn) if p != "self"], R, site(CTX, "CryptContext.dummy_verify"), str(params(fn)), "dummy_verify() takes no secret from the caller")
+    # the dummy path passes no context keywords: a context whose default scheme cannot hash without `user` cannot answer at all
+    from pv.handlers import HandlerTable
+    table = HandlerTable(model)
+    needs_user = []
+    for h in table:
+        if h.kind != "class" or h.cref is None:
+            continue
+        ck = table.const(h, "context_kwds")
+        if not (isinstance(ck, tuple) and "user" in ck):
+            continue
+        for m in ("_calc_checksum", "hash"):
+            o, f2 = model.method(h.cref, m, required=False)
+            if f2 is None or o[0] == "passlib.utils.handlers":
+                continue
+            t2 = ast.unparse(f2)
+            uses = "self.user" in t2 or ("user" in params(f2) and "user" in t2)
+            guarded = "if self.user" in t2 or "if user" in t2 or "user is None" in t2 or "self.user is None" in t2 or "if not user" in t2
+            if uses and not guarded:
+                needs_user.append(h.name)
+                break
+    dv = model.func(CTX, "CryptContext.dummy_verify")
+    forwards = any(isinstance(n, ast.Call) and any(k.arg is None for k in n.keywords) for n in walk_no_nested(dv)) or bool([p for p in params(dv) if p != "self"]) or dv.args.kwarg is not None
+    if needs_user and not forwards:
+        rep.violation(R, site(CTX, "CryptContext.dummy_verify"), "self.verify(self._dummy_secret, self._dummy_hash)  # no context keywords, but some schemes cannot hash without `user`",
+                      f"the dummy verification supplies no `user`; {len(needs_user)} registered schemes ({', '.join(sorted(needs_user))}) raise TypeError without one",
+                      witness="CryptContext(['postgres_md5']).verify('pw', None, user='u') raises TypeError('user must be str or bytes, not None') instead of returning False")
+    else:
+        rep.hold(R, site(CTX, "CryptContext.dummy_verify"), f"context keywords forwarded; schemes needing user: {sorted(needs_user)}")
     fn = model.func(CTX, "CryptContext._dummy_hash")
     rep.check(returns(fn) == ["self.hash(self._dummy_secret)"], R, site(CTX, "CryptContext._dummy_hash"), "; ".join(returns(fn)), "the dummy hash is made by the context's own default scheme")
     # cache dropped on every policy replacement: unconditional call in load() after the commit point
@@ -115,12 +143,25 @@ def rule_c(model, rep):
     rep.check(body[0] == "out = cls.hash('')", R, site(M, U + ".disable"), body[0], "disable() starts from the configured marker")
     iff = find_if(fn, "hash is not None")
     ok = len(iff) == 1
+    unwrap = None
     if ok:
-        inner = [ast.unparse(x) for x in iff[0].body]
-        ok = inner == ["hash = to_native_str(hash, param='hash')", "if cls.identify(hash):\n    hash = cls.enable(hash)", "if hash:\n    out += hash"]
-    rep.check(ok, R, site(M, U + ".disable"), " | ".join(ast.unparse(x) for x in iff[0].body) if iff else "<none>",
+        inner = iff[0].body
+        ok = len(inner) == 3 and ast.unparse(inner[0]) == "hash = to_native_str(hash, param='hash')" and isinstance(inner[1], ast.If) and ast.unparse(inner[1].test) == "cls.identify(hash)" \
+            and ast.unparse(inner[2]) == "if hash:\n    out += hash"
+        if ok:
+            unwrap = [n for n in ast.walk(inner[1]) if isinstance(n, ast.Assign) and ast.unparse(n) == "hash = cls.enable(hash)"]
+            ok = len(unwrap) == 1
+    rep.check(ok, R, site(M, U + ".disable"), " | ".join(ast.unparse(x) for x in iff[0].body)[:200] if iff else "<none>",
               "an already-disabled original (any marker identify() accepts) is unwrapped before the marker is prepended",
               witness="disabling a '*'-disabled string under the '!' marker nests the markers: enable() then returns a string that is still disabled")
+    if unwrap:
+        # enable() raises ValueError for a bare marker (checked below) and identify() accepts bare markers, so the unwrap must tolerate it
+        unit_m = model.unit(M)
+        tr = unit_m.enclosing(unwrap[0], ast.Try)
+        guarded = tr is not None and any(h.type is not None and "ValueError" in ast.unparse(h.type) for h in tr.handlers) and unwrap[0] in tr.body
+        rep.check(guarded, R, site(M, U + ".disable") + " bare marker", "hash = cls.enable(hash)  # raises ValueError when nothing is embedded",
+                  "disabling a string that is already disabled and embeds no hash ('!', '*', '') keeps it disabled instead of raising",
+                  witness="ctx.disable(ctx.disable()) raises ValueError('cannot restore original hash'): an account disabled without its hash cannot be disabled again")
     rep.check(body[-1] == "return out", R, site(M, U + ".disable"), body[-1], "returns marker + original")
     fn = model.func(M, U + ".enable")
     t = qtext(fn)
